@@ -54,6 +54,9 @@ def corpus():
         mk("star2-diff", "id,id", "sw 1 2;sw 0 1;st 0 x 5;rd 0 x"),
         # N4: DelegatesTo through a broken PrototypedFrom link
         mk("D-P-T", "id,id", "sw 1 2;sw 0 1;st 1 x 7;st 0 x 9;rd 0 x"),
+        # `del` of a prototyped value raising after it deleted: the read-back fails / the listener re-hook fails
+        mk("star2-deep", "id,id", "sw 2 3;sw 1 2;sw 0 1;st 0 x 5;sw 2 N;dl 0 x;rd 0 x"),
+        mk("star2-deep", "id,id", "sw 2 3;sw 1 2;sw 0 1;st 1 a_x 6;st 0 x 5;sw 2 N;dl 0 x;rd 0 x;dl 0 x"),
         # prototype life cycle
         mk("same-P", "rejneg,id", "sw 1 2;sw 0 1;st 2 x 4;st 0 x -1;st 0 x 6;st 2 x 5;dl 0 x;st 2 x 8;sw 0 3;st 3 x 9"),
         # the 100-step recursion limit of setattr_delegate / base_trait: chains of 99, 100, 101 deferring levels
@@ -70,7 +73,7 @@ def deep_case(n, kind):
 
 def generate(rng, tier):
     if tier == "quick":
-        n_main, n_chain, n_odd = 250, 120, 40
+        n_main, n_chain, n_odd = 2000, 500, 150
     elif tier == "thorough":
         n_main, n_chain, n_odd = 6250, 3000, 1000
     else:
@@ -345,6 +348,7 @@ def run_impl(case):
                 tags.add("%s-err:%s" % (k, D.exc_name(e)))
             events, oevents, nexc = list(w.events), list(w.oevents), len(excs)
             after = w.snapshot()
+            local_before = dict(orc.local)
             if nexc:
                 tags.add("hook-exception")
             if events:
@@ -352,6 +356,22 @@ def run_impl(case):
             a = w.spec(op[1]).by_name.get(op[2]) if k != "sw" else None
             if a is not None:
                 tags.add("%s-%s" % (k, a.kind))
+                if a.kind in ("D", "P"):
+                    cfg = orc.cfg(op[1], a)
+                    tags.add("cfg:%s" % (cfg if cfg else "outside-statement"))
+                    had_local = (op[1], op[2]) in local_before
+                    if exc is None and k == "st" and a.kind == "P":
+                        tags.add("branch:local-set-again" if had_local else "branch:local-set-breaks-link")
+                    if exc is None and k == "dl" and a.kind == "P":
+                        tags.add("branch:del-relinks" if had_local else "branch:del-without-local")
+                    if exc is None and k in ("st", "dl") and a.kind == "D":
+                        tags.add("branch:%s-lands-on-delegate" % k)
+                    if exc is not None and before != after:
+                        tags.add("branch:raised-after-changing-state")
+            elif k != "sw":
+                tags.add("%s-undeclared" % k)
+            if k == "sw":
+                tags.add("sw-none" if op[2] is None else "sw-object")
             orc.check(op, exc, before, after, events, oevents, nexc)
             outs.append("%s E[%s] X%d S[%s] F[%s]" % (res, D.show_events(events), nexc, D.show_snapshot(w, after),
                                                       D.show_forwarders(w)))
